@@ -6,8 +6,8 @@ export GOFLAGS=-mod=mod GOPROXY=off GOSUMDB=off GOTOOLCHAIN=local
 mkdir -p build evidence replays
 cp /repo/go.sum harness/go.sum
 (cd harness && go build -o ../build/factgen ./cmd/factgen)
-rm -f lean/JetVerif/Generated/Facts.lean
-./build/factgen -repo /repo -o lean/JetVerif/Generated/Facts.lean
+rm -f lean/JetVerif/Generated/Facts.lean lean/JetVerif/Generated/Unicode.lean
+./build/factgen -repo /repo -o lean/JetVerif/Generated/Facts.lean -unicode lean/JetVerif/Generated/Unicode.lean
 (cd lean && lake build JetVerif jetdriver)
 (cd harness && go build -tags verif -o ../build/jetcheck ./cmd/jetcheck)
 echo setup ok
